@@ -55,7 +55,30 @@ ASSUMPTIONS = [
 
 REDIRECT_CODES = (301, 302, 303, 307, 308)
 FINAL_CODES = (200, 200, 200, 204, 404, 500)
-TARGETS = ("rel", "relpath", "same", "defport", "port", "host", "ip", "sub", "https")
+TARGETS = ("rel", "relpath", "same", "defport", "port", "host", "ip", "sub", "https", "odd")
+
+# Location values that urllib refuses, parses oddly, or that name no usable target ("odd"
+# hops; always the last hop of a chain).  {i} fetch, {j} hop, {ip} the fetch's literal address.
+ODD_LOCATIONS = (
+    "http://[::1/f{i}/h{j}",                       # unbalanced bracket: urlsplit raises
+    "http://[o{i}.test]/f{i}/h{j}",                # bracketed non-address
+    "http://ru:rp@{ip}:99999/f{i}/h{j}",           # cross-origin, userinfo, port out of range
+    "http://ru:rp@{ip}:8o/f{i}/h{j}",              # ... non-numeric port
+    "http://o{i}.test:99999/f{i}/h{j}",            # port out of range, no userinfo
+    "http://o{i}.test:/f{i}/h{j}",                 # empty port
+    "http:///f{i}/h{j}",                           # empty host
+    "http://:80/f{i}/h{j}",                        # empty host with port
+    "//p{i}.test\\@o{i}.test/f{i}/h{j}",          # backslash before @
+    "http://p{i}.test\\f{i}\\h{j}",               # backslashes as separators
+    "http://ru:r@p:x@p{i}.test/f{i}/h{j}",         # userinfo containing ':' and '@'
+    "/f{i}/h{j}?" + "a" * 5000,                    # very long
+    "http://p{i}.test/f{i}/h{j}/caf\xe9",          # obs-text
+    "http://p{i}.test/f{i}/h{j}\t",                # trailing whitespace inside the value
+    "ftp://p{i}.test/f{i}/h{j}",                   # unsupported scheme
+    "",                                            # empty: the same URL again
+    "http:f{i}/h{j}",                              # scheme without //
+    "http://p{i}.test:80:80/f{i}/h{j}",            # two ports
+)
 
 
 def _ip(i, kind):
@@ -84,6 +107,8 @@ def _resolve_hops(i, hops):
             cur = ("http", "sub.o%d.test" % i, 80, "sub.o%d.test" % i)
         elif to == "https":
             cur = ("https", "o%d.test" % i, 443, "o%d.test" % i)
+        elif to == "odd":
+            cur = ("odd", "", -1, "")
         out.append(cur)
     return out
 
@@ -99,6 +124,9 @@ def _host_ip(i, host):
 def _location(i, j, hop, tgt):
     to = hop.get("to", "same")
     path = "/f%d/h%d" % (i, j)
+    if to == "odd":
+        t = ODD_LOCATIONS[hop.get("loc", 0) % len(ODD_LOCATIONS)]
+        return t.replace("{i}", str(i)).replace("{j}", str(j)).replace("{ip}", _ip(i, "ip"))
     if to == "rel":
         return path
     if to == "relpath":
@@ -155,8 +183,16 @@ def gen(rng, tier, index):
                 hop["dns_delay"] = rng.choice([1, scale // 2, scale, 3 * scale])
             elif d < 0.24:
                 hop["dns_fail"] = True
+            if last and j and rng.random() < 0.12:
+                hop["to"] = "odd"
+                hop["loc"] = rng.randrange(len(ODD_LOCATIONS))
+                hop.pop("userinfo", None)
+                hop.pop("schemerel", None)
+            if d >= 0.24 and d < 0.27:
+                hop["dns_never"] = True
             if clean and nh > 1 and j >= 1:
                 hop["resp"] = "ok"
+                hop.pop("dns_never", None)
                 hop.pop("connect", None)
                 hop.pop("dns_fail", None)
                 if hop.get("to") == "https":
@@ -179,6 +215,25 @@ def gen(rng, tier, index):
             "max_redirects": rng.choice([None, None, None, 0, 1, 2, 3]),
             "hops": hops,
         }
+        # 0 = "no timeout", for each of the two separately.  Never generated: a request that
+        # may legitimately stay pending (no request_timeout and a silent server; neither
+        # timeout and a connection attempt that never finishes).
+        z = rng.random()
+        if z < 0.10:
+            f["connect_timeout_zero"] = True
+        elif z < 0.20:
+            f["request_timeout_zero"] = True
+        elif z < 0.23:
+            f["connect_timeout_zero"] = f["request_timeout_zero"] = True
+        if f.get("request_timeout_zero"):
+            for h in hops:
+                if h["resp"] == "never":
+                    h["resp"] = "ok"
+            if f.get("connect_timeout_zero"):
+                for h in hops:
+                    h.pop("dns_never", None)
+                    if h.get("connect") == "blackhole":
+                        h["connect"] = "refuse"
         if clean and nh > 1:
             f["connect_timeout"] = None
             f["request_timeout"] = None
@@ -215,6 +270,8 @@ def validate(scn):
             return False
         for f in fs:
             if f.get("method") not in ("GET", "POST", "HEAD", "PUT"):
+                return False
+            if any(h.get("to") == "odd" for h in f["hops"][:-1]):
                 return False
             if not f["hops"] or not all(isinstance(h, dict) for h in f["hops"]):
                 return False
@@ -291,6 +348,18 @@ def run(scn, full_log=False):
         probes[name] = probes.get(name, 0) + k
 
     targets = [_resolve_hops(i, f["hops"]) for i, f in enumerate(fetches)]
+    has_odd = [any(h.get("to") == "odd" for h in f["hops"][1:]) for f in fetches]
+    # May fetch i legitimately stay pending?  Only with no request_timeout and a server that
+    # never answers, or with neither timeout and a connection attempt (or a wait for a slot
+    # held by such a fetch) that never ends.  0 = no timeout; None = the 20 s default.
+    ct0 = [bool(f.get("connect_timeout_zero")) for f in fetches]
+    rt0 = [bool(f.get("request_timeout_zero")) for f in fetches]
+    basic = []
+    for i, f in enumerate(fetches):
+        silent = any(h.get("resp") == "never" for h in f["hops"])
+        stall = any(h.get("connect") == "blackhole" or h.get("dns_never") for h in f["hops"])
+        basic.append((rt0[i] and silent) or (ct0[i] and rt0[i] and stall))
+    may_never = [basic[i] or (ct0[i] and rt0[i] and any(basic)) for i in range(nf)]
     # secrets of fetch i
     secrets = []
     for i, f in enumerate(fetches):
@@ -413,7 +482,7 @@ def run(scn, full_log=False):
             hdr = b"HTTP/1.1 %d X\r\n" % code
             if not last:
                 loc = _location(i, j + 1, fetches[i]["hops"][j + 1], targets[i][j + 1])
-                hdr += b"Location: " + loc.encode() + b"\r\n"
+                hdr += b"Location: " + loc.encode("latin1") + b"\r\n"
             if code != 204:
                 hdr += b"Content-Length: %d\r\n" % (len(b"f%dh%d" % (i, j)) if method == "HEAD"
                                                   else len(body))
@@ -430,9 +499,19 @@ def run(scn, full_log=False):
             return lambda peer: loop.create_task(script(peer, key))
 
         # ---- DNS table and listeners
+        never_hosts = set()
         for i, f in enumerate(fetches):
             for j, h in enumerate(f["hops"]):
                 scheme, host, port, _ = targets[i][j]
+                if scheme == "odd":
+                    # whatever the client makes of the Location, the fetch's usual hosts exist
+                    for hn, kind in (("o%d.test" % i, "o"), ("p%d.test" % i, "p")):
+                        loop.dns.setdefault(hn, {"addrs": [[2, _ip(i, kind)]]})
+                    for key in ((_ip(i, "o"), 80), (_ip(i, "p"), 80), (_ip(i, "ip"), 80)):
+                        if key not in net.listeners:
+                            net.connect_script.setdefault(key, {"outcome": "accept", "delay": 0})
+                            net.raw_listen(key[0], key[1], make_factory(key))
+                    continue
                 ip = _host_ip(i, host)
                 if not host.startswith("10."):
                     ent = loop.dns.setdefault(host, {"addrs": [[2, ip]]})
@@ -440,6 +519,8 @@ def run(scn, full_log=False):
                         ent["delay"] = max(ent.get("delay", 0), h["dns_delay"])
                     if h.get("dns_fail"):
                         ent["fail"] = True
+                if h.get("dns_never"):
+                    never_hosts.add(host)
                 key = (ip, port)
                 if scheme == "https":
                     net.connect_script[key] = {"outcome": "refuse", "delay": h.get("cdelay", 0)}
@@ -472,6 +553,9 @@ def run(scn, full_log=False):
                 s = sub_by.get((i, j))
                 if s is not None:
                     s["started"] = loop.time()
+            if h in never_hosts:
+                loop.faults["dns_never"] += 1
+                await loop.create_future()  # a resolver that never answers
             return await orig_gai(host, port, **kw)
 
         loop.getaddrinfo = gai
@@ -481,10 +565,20 @@ def run(scn, full_log=False):
             url = request.url
             ij = None
             try:
-                path = "/" + url.split("://", 1)[1].split("/", 1)[1]
-                ij = _parse_path(path)
+                first = getattr(request, "original_request", None)
+                u0 = url if first is None else first.url
+                i0 = _parse_path("/" + u0.split("://", 1)[1].split("/", 1)[1])[0]
+                ij = (i0, sum(1 for x in subs if x["ij"] is not None and x["ij"][0] == i0))
             except Exception:
                 ij = None
+            if ij is not None and not has_odd[ij[0]]:
+                try:
+                    pij = _parse_path("/" + url.split("://", 1)[1].split("/", 1)[1])
+                except Exception:
+                    pij = None
+                if pij is not None and pij != ij:
+                    bad("c09.hop_submitted_twice", f"submission number {ij[1]} of fetch {ij[0]} "
+                                                   f"asks for hop {pij} (delegate finish() ran twice?)")
             rec = {"ij": ij, "t": loop.time(), "callbacks": 0, "started": None, "done": None,
                    "url": url, "headers": list(request.headers.get_all()),
                    "auth_username": request.auth_username, "auth_password": request.auth_password,
@@ -492,9 +586,6 @@ def run(scn, full_log=False):
                    "n": len(subs)}
             subs.append(rec)
             if ij is not None:
-                if ij in sub_by:
-                    bad("c09.hop_submitted_twice", f"hop {ij} of the redirect chain was submitted "
-                                                   f"twice (delegate finish() ran twice?)")
                 sub_by[ij] = rec
                 if ij[1] > 0:
                     prev = sub_by.get((ij[0], ij[1] - 1))
@@ -508,6 +599,7 @@ def run(scn, full_log=False):
                     bad("c09.callback_twice", f"the completion callback of hop {ij} was invoked "
                                               f"{rec['callbacks']} times")
                 rec["done"] = loop.time()
+                rec["code"] = response.code
                 err = getattr(response, "error", None)
                 # (a follow-up's queue timeout is handed down the redirect chain: it is the
                 # timeout of *this* hop only if this hop never started)
@@ -560,6 +652,10 @@ def run(scn, full_log=False):
                     kw["connect_timeout"] = _units(f["connect_timeout"])
                 if f.get("request_timeout") is not None:
                     kw["request_timeout"] = _units(f["request_timeout"])
+                if ct0[i]:
+                    kw["connect_timeout"] = 0
+                if rt0[i]:
+                    kw["request_timeout"] = 0
                 if f.get("max_redirects") is not None:
                     kw["max_redirects"] = f["max_redirects"]
                 method = f.get("method", "GET")
@@ -597,7 +693,9 @@ def run(scn, full_log=False):
         for i in range(nf):
             if futs[i] is None:
                 continue
-            if fut_done[i] == 0:
+            if fut_done[i] == 0 and may_never[i]:
+                probe("fetch_legitimately_pending")
+            elif fut_done[i] == 0:
                 # why?  name the common cause for the key
                 chain_failed = any(s["ij"] and s["ij"][0] == i and s["ij"][1] > 0
                                    for s in subs)
@@ -656,7 +754,7 @@ def run(scn, full_log=False):
         started_set = set(starts)
         for s in subs:
             if s["ij"] is not None and s["ij"] not in started_set and s["done"] is not None \
-                    and not s["queue_timeout"]:
+                    and not s["queue_timeout"] and s.get("code") != 599:
                 bad("c09.completed_without_start",
                     f"hop {s['ij']} completed without ever starting and without a queue timeout")
         # redirects
@@ -676,6 +774,21 @@ def run(scn, full_log=False):
                 sub = sub_by.get((i, j))
                 reqs = received.get((i, j), [])
                 if sub is None and not reqs:
+                    continue
+                if tgt[0] == "odd":
+                    # where an unusual Location leads is the client's business; what a server
+                    # at another address than the original one receives is ours
+                    probe("odd_location_followed")
+                    probe("odd_location_%02d" % (f["hops"][j].get("loc", 0) % len(ODD_LOCATIONS)))
+                    for rq in reqs:
+                        if (rq["ip"], rq["port"]) != (_ip(i, "o"), 80):
+                            probe("odd_location_reaches_other_origin")
+                            if any(t.encode() in rq["raw"] for t in toks):
+                                bad("c09.credentials_leaked_cross_origin",
+                                    f"fetch {i}: Location {_location(i, j, f['hops'][j], None)[:60]!r}"
+                                    f" led to {rq['ip']}:{rq['port']}, which received the "
+                                    f"original credentials",
+                                    "c09.credentials_leaked_cross_origin/odd_location")
                     continue
                 probe("redirect_followed")
                 if f["hops"][j].get("userinfo") and f["hops"][j].get("to") not in ("rel", "relpath"):
@@ -727,7 +840,9 @@ def run(scn, full_log=False):
                             + ("multi_valued_header" if multi else "+".join(names)))
                 # ---- method / body rewriting
                 prev_reqs = received.get((i, j - 1), [])
-                if reqs and prev_reqs and prev_code in REDIRECT_CODES:
+                # (a path requested more than once - an empty Location repeats the URL - cannot
+                # be paired with the request that led to it)
+                if len(reqs) == 1 and len(prev_reqs) == 1 and prev_code in REDIRECT_CODES:
                     pm = prev_reqs[-1]["method"]
                     rq = reqs[-1]
                     rewrite = (prev_code == 303 and pm != "HEAD") or \
@@ -751,7 +866,8 @@ def run(scn, full_log=False):
                                 f"{rq['method']} with {len(rq['body'])} body bytes")
             # result sanity: a response must come from the hop where the chain has to stop
             r = results[i]
-            if r is not None and r[0] == "ok" and 200 <= r[1] < 600 and r[1] != 599:
+            if r is not None and r[0] == "ok" and 200 <= r[1] < 600 and r[1] != 599 \
+                    and not has_odd[i]:
                 stop = min(len(f["hops"]) - 1, mr)
                 exp_code = f["hops"][stop].get("code")
                 if r[1] != exp_code and not (r[1] == 404):
